@@ -289,7 +289,7 @@ func init() {
 			// whatever that kind of statement keeps outside the statement is used by several goroutines at once
 			theme := -1
 			if r.Intn(2) == 0 {
-				theme = []int{1, 2, 3, 5, 5, 100, 101, 102, 4, 0, 103, 104, 104, 105, 106, 106}[r.Intn(16)]
+				theme = []int{1, 2, 3, 5, 5, 100, 101, 102, 4, 0, 103, 104, 104, 105, 106, 106, 6, 6}[r.Intn(18)]
 			}
 			for g := 0; g < ng; g++ {
 				reg := r.Intn(16)
@@ -349,6 +349,15 @@ func init() {
 					}
 				case 6:
 					st = &Stmt{Kind: "put", Pairs: []PutPair{{AStr(fmt.Sprintf("r%02dnew", reg)), AStr("v")}, {AStr(fmt.Sprintf("r%02dk1", reg)), ACall("upper", ABin("+", AStr("x"), AKey()))}}}
+					if theme == 6 {
+						// several long PUT statements at once (each on its own region): whatever stages the pairs before the
+						// storage takes them belongs to one statement
+						np := 8 + r.Intn(40)
+						st.Pairs = st.Pairs[:0]
+						for i := 0; i < np; i++ {
+							st.Pairs = append(st.Pairs, PutPair{AStr(fmt.Sprintf("r%02dp%02d", reg, i%37)), ACall("upper", ABin("+", AStr(fmt.Sprintf("v%d_", i)), AKey()))})
+						}
+					}
 				case 7:
 					st = &Stmt{Kind: "delete", Where: ABin("&", kpre, ABin(">", ACall("int", AVal()), AInt(2)))}
 				case 8:
